@@ -34,9 +34,15 @@ json generate(uint64_t seed, uint64_t idx, int tier)
 	tg.comments = (int)r.below(3);
 	std::vector<Chunk> flat = gen_text(r, schema["opts"], tg);
 	Tree t;
+	int params_body_includes = 0;
 	t.mode = (int)r.below(3);
 	unsigned kind = (unsigned)(idx % 4); // 0,1 flat equivalence; 2 fault; 3 history
 	int maxdepth = (int)r.range(1, kind == 0 ? 9 : 4);
+	// half of the plans also move section bodies into files (include inside a section body)
+	if (r.chance(1, 2))
+		for (auto &c : flat)
+			if (r.chance(1, 2) && split_section_body(r, t, c, schema["opts"]))
+				params_body_includes++;
 	std::vector<Chunk> top = split(r, t, flat, 0, maxdepth);
 	json steps = json::array();
 	json init = step(0, "init", 0);
@@ -53,7 +59,7 @@ json generate(uint64_t seed, uint64_t idx, int tier)
 		steps.push_back(a);
 	}
 	std::string route = r.chance(1, 3) ? "fp" : (r.chance(1, 2) ? "buf" : "file");
-	json params = {{"mode", t.mode}, {"depth", t.max_depth_reached}, {"route", route}};
+	json params = {{"mode", t.mode}, {"depth", t.max_depth_reached}, {"route", route}, {"body_includes", params_body_includes}};
 	json world;
 	auto top_parse = [&](const std::vector<Chunk> &chunks, const std::string &path) {
 		json p = step(0, "parse", 0);
@@ -246,6 +252,32 @@ json inline_includes(const json &plan, const json &chunks, int depth)
 				continue;
 			}
 		}
+		if (c.contains("incs") && depth < 20) {
+			// include statements inside a section body: write the file's text in place
+			json c2 = c;
+			std::string t = from_json_bytes(c["t"].get<std::string>());
+			bool ok = true;
+			// replace from the back so that earlier offsets stay valid
+			for (size_t k = c["incs"].size(); k-- > 0;) {
+				size_t s = c["incs"][k][0].get<size_t>(), e = c["incs"][k][1].get<size_t>();
+				const json *f = fs_entry(plan, c["incs"][k][2].get<std::string>());
+				if (!f || !f->contains("chunks") || e > t.size() || s > e) {
+					ok = false;
+					break;
+				}
+				std::string body;
+				for (auto &x : inline_includes(plan, (*f)["chunks"], depth + 1))
+					body += from_json_bytes(x["t"].get<std::string>());
+				t = t.substr(0, s) + " " + body + t.substr(e);
+			}
+			if (ok) {
+				c2["t"] = to_json_bytes(t);
+				c2.erase("incs");
+				c2["toks"] = json::array(); // offsets are no longer valid; the flat text needs no token map
+				out.push_back(c2);
+				continue;
+			}
+		}
 		out.push_back(c);
 	}
 	return out;
@@ -344,6 +376,8 @@ JudgeOut judge(const json &plan)
 				out.k.add("probe.split_into_include_tree");
 			if (params.value("depth", 0) >= 5)
 				out.k.add("probe.include_depth_ge_5");
+			if (params.value("body_includes", 0) > 0)
+				out.k.add("probe.include_inside_section_body");
 			if (fo && (o->ret != fo->ret || o->dump != fo->dump)) {
 				out.viol.push_back({"O-flat:" + std::string(o->ret != fo->ret ? "ret" : "values"),
 						    "the include-split text and the flat text give different results\n  split: ret=" + std::to_string(o->ret) + " diags=" + diag_str(*o) + "\n" + o->dump.substr(0, 700) +
@@ -427,8 +461,8 @@ Property P = [] {
 		 "path or with a tilde, delivered as buffer / stream / file; run kinds: flat-equivalence (+ a wrong token in the includer after the includes: file and line restored), "
 		 "one failing target (missing, directory, unreadable, chain deeper than the limit, self-inclusion, error inside the included file, empty name) followed by a good include, "
 		 "and histories of 1..12 failing includes followed by the include tree in a new context compared with a fresh image; distinct = distinct plans";
-	p.assumptions = {"splitting happens at top-level item boundaries only (not inside section bodies)", "line expectations count every newline of the generator's own text once (M-line); no parser model is involved"};
-	p.probes = {"split_into_include_tree", "include_depth_ge_5", "error_after_include_in_includer", "good_include_after_failure", "ten_or_more_failures_then_success"};
+	p.assumptions = {"splitting happens at top-level item boundaries and, for sections whose declaration lists include(), by moving the whole body of a top-level section item into a file", "line expectations count every newline of the generator's own text once (M-line); no parser model is involved"};
+	p.probes = {"split_into_include_tree", "include_depth_ge_5", "include_inside_section_body", "error_after_include_in_includer", "good_include_after_failure", "ten_or_more_failures_then_success"};
 	p.components = {{"confuse.c", "real"}, {"lexer.l (flex 2.6.4 generated)", "real"}, {"file namespace (fopen/stat)", "stub: in-memory tree"}, {"passwd database", "stub"}, {"streams", "stub: fopencookie"}};
 	p.quick_seconds = 20;
 	p.thorough_seconds = 400;
